@@ -28,7 +28,7 @@ Fam == [cls |-> [c \in ClassNames |->
             [] c = "SubKw"  -> Cl("Base", FALSE, TRUE, <<Pm("a", TInt, VInt(4))>>)                                  \* takes **kwargs
             [] c = "SubKw2" -> Cl("SubKw", FALSE, TRUE, <<Pm("a", TInt, VInt(6)), Pm("b", TStr, VStr("v"))>>)
             [] c = "Other"  -> Cl("", FALSE, FALSE, <<Pm("a", TInt, VInt(5))>>)                                     \* unrelated
-            [] c = "Abs"    -> Cl("", TRUE, FALSE, << >>)                                                           \* abstract base
+            [] c = "Abs"    -> Cl("", TRUE, FALSE, <<Pm("z", TInt, VInt(9))>>)                                      \* abstract base
             [] c = "Conc"   -> Cl("Abs", FALSE, FALSE, <<Pm("z", TInt, VInt(0))>>)
             [] c = "Outer"  -> Cl("", FALSE, FALSE, <<Rq("inner", TCls("Base")), Pm("n", TInt, VInt(0))>>)
             [] c = "OuterOpt"   -> Cl("", FALSE, FALSE, <<Pm("inner", TOpt("Base"), VNull)>>)
@@ -91,7 +91,8 @@ L2(x, y) == VList(<<x, y>>)
 ItemsOuterList == <<
   W(D1("inners", L2(Bare("Sub1"), CPI(Bare("Base"), D1("a", VInt(0)))))), Dt(<<"inners">>, L2(Bare("Sub2"), Bare("Sub1"))),
   W(D1("inners", VList(<< >>))), W(D1("inners", VList(<<Bare("Other")>>))), W(D1("inners", VInt(3))),
-  Dt(<<"inners">>, L2(CPI(Bare("Sub1"), D1("b", VStr("k"))), InnerSub2)), W(D1("inners", VList(<<Path("make_base")>>))), W(Bare("OuterList"))
+  Dt(<<"inners">>, L2(CPI(Bare("Sub1"), D1("b", VStr("k"))), InnerSub2)), W(D1("inners", VList(<<Path("make_base")>>))), W(Bare("OuterList")),
+  Dt(<<"inners">>, L2(CPI(Bare("Sub1"), D1("a", VInt(7))), Bare("Base"))), W(D1("inners", VList(<<InnerSub2>>)))       \* a shorter list after a longer one
 >>
 ItemsOuterDict == <<
   W(D1("inners", D2("k1", CP(Bare("Sub1")), "k2", Bare("Base")))), Dt(<<"inners">>, D1("k1", InnerSub2)),
@@ -108,19 +109,25 @@ ItemsAbs == <<
 >>
 ItemsSubKw == <<
   W(Bare("SubKw")), W(Bare("SubKw2")), W(CPK(Bare("SubKw"), D1("k", VInt(3)))), Dt(<<"dict_kwargs", "j">>, VInt(4)),
-  W(CPK(Bare("SubKw2"), D1("m", VInt(5)))), Dt(<<"b">>, VStr("w")), W(CPK(Bare("SubKw"), D1("b", VStr("q"))))
+  W(CPK(Bare("SubKw2"), D1("m", VInt(5)))), Dt(<<"b">>, VStr("w")), W(CPK(Bare("SubKw"), D1("b", VStr("q")))),
+  W(D3("class_path", Bare("SubKw"), "init_args", D1("a", VInt(5)), "dict_kwargs", D1("a", VInt(6))))               \* a dict_kwargs entry that names a parameter wins
 >>
 Decl == <<"Base", "Outer", "OuterOpt", "OuterList", "OuterDict", "OuterUnion", "Abs", "SubKw">>
 Vocab(t) == CASE t = "Base" -> ItemsBase [] t = "Outer" -> ItemsOuter [] t = "OuterOpt" -> ItemsOuterOpt [] t = "OuterList" -> ItemsOuterList
               [] t = "OuterDict" -> ItemsOuterDict [] t = "OuterUnion" -> ItemsOuterUnion [] t = "Abs" -> ItemsAbs [] t = "SubKw" -> ItemsSubKw
 
+\* sequences of three sources are built from the core of the two large vocabularies (all items of the small ones)
+Core(t) == CASE t = "Base"  -> {1, 3, 4, 5, 6, 8, 12, 17, 19, 23, 24, 26, 27, 29, 30, 31, 33, 34, 36, 38, 39, 41, 43, 45}
+             [] t = "Outer" -> {2, 4, 6, 7, 10, 11, 13, 14, 15, 17, 19, 20, 21, 22, 24, 25}
+             [] OTHER       -> 1..Len(Vocab(t))
 \* ids: <<declared class, i1, i2, i3>>, 0 = no further source
 Ids == UNION {{<<Decl[d], i1, 0, 0>> : i1 \in 1..Len(Vocab(Decl[d]))} : d \in 1..Len(Decl)}
   \cup (IF MaxLen >= 2 THEN UNION {{<<Decl[d], i1, i2, 0>> : i1 \in 1..Len(Vocab(Decl[d])), i2 \in 1..Len(Vocab(Decl[d]))} : d \in 1..Len(Decl)} ELSE {})
-  \cup (IF MaxLen >= 3 THEN UNION {{<<Decl[d], i1, i2, i3>> : i1 \in 1..Len(Vocab(Decl[d])), i2 \in 1..Len(Vocab(Decl[d])), i3 \in 1..Len(Vocab(Decl[d]))} : d \in 1..Len(Decl)} ELSE {})
+  \cup (IF MaxLen >= 3 THEN UNION {{<<Decl[d], i1, i2, i3>> : i1 \in Core(Decl[d]), i2 \in Core(Decl[d]), i3 \in Core(Decl[d])} : d \in 1..Len(Decl)} ELSE {})
 ItemsOf(id) == LET v == Vocab(id[1]) IN
   <<v[id[2]]>> \o (IF id[3] = 0 THEN << >> ELSE <<v[id[3]]>>) \o (IF id[4] = 0 THEN << >> ELSE <<v[id[4]]>>)
-Case(id, items) == [aid |-> id, fam |-> Fam, T |-> id[1], items |-> items]
+Case(id, items) == [aid |-> id, T |-> id[1], items |-> items]
+MCFamOf(c) == Fam                  \* FamOf <- MCFamOf in the cfg: the family is not part of the state
 
 Init == \E id \in Ids : /\ cs = Case(id, << >>) /\ pc = "build" /\ i = 1 /\ cur = NoVal /\ ok = "run" /\ log = << >>
 ABuild == /\ pc = "build" /\ cs' = Case(cs.aid, ItemsOf(cs.aid)) /\ pc' = "source" /\ UNCHANGED <<i, cur, ok, log>>
@@ -131,6 +138,6 @@ Spec == Init /\ [][MCNext]_vars
 \* (the family is emitted once, by the ASSUME; a case carries its sources, their explicit form and what the spec predicts)
 ASSUME Emit => PrintT(ToJson([fam |-> Fam]))
 EmitCase == (Emit /\ Done) =>
-  PrintT(ToJson([id |-> cs.aid, T |-> cs.T, items |-> cs.items, explicit |-> ExplicitItems(cs.fam, cs.T, cs.items),
+  PrintT(ToJson([id |-> cs.aid, T |-> cs.T, items |-> cs.items, explicit |-> ExplicitItems(Fam, cs.T, cs.items),
                  alg |-> AlgParsed, ref |-> RefOf(NoDev), code |-> RefOf(CodeDev), log |-> log]))
 =============================================================================
